@@ -23,6 +23,8 @@ func checkC06(p *Prog, r *Report) {
 	c06Overflow(p, r)
 	c08Clip(p, r, "C06.R3")
 	c15Saturation(p, r, "C06.R4")
+	// field capacity must fall back from pore volume when the table falls: the restore/recompute covers every layer (shared with C15.R4)
+	c15History(p, r, "C06.R5")
 	r.Note("not decided: absence of NaN/Inf in every state variable (hundreds of divisions whose denominators are runtime state) and bounds over multi-day histories")
 }
 
